@@ -156,8 +156,10 @@ class _Finder(importlib.abc.MetaPathFinder):
 _installed = False
 
 
-def install(repo="/repo"):
+def install(repo=None):
     global _installed
+    from . import REPO
+    repo = repo or REPO
     if _installed:
         return
     assert not any(m == "norminette" or m.startswith("norminette.") for m in sys.modules), \
